@@ -789,6 +789,9 @@ def run_batch(prop, tier, rng, cases, n_corpus):
         for c in cases:
             d0, d1 = c['start'] // 86400, c['end'] // 86400
             cut = rng.randrange(d0 - 2, d1 + 1)
+            sp = [d for d in c.get('spike_days', []) if d0 - 2 <= d <= d1]
+            if sp and rng.random() < 0.7:
+                cut = rng.choice(sp)          # the later data start right after a one-bar jump
             cuts.append(cut)
             cases2.append(dict(c, market=cut_market(rng, c, cut)))
         reals2 = run_many(cases2)
